@@ -107,12 +107,14 @@ pub fn render_case(op: &str, extra: &str, t: &[Node], data: &Object, partials: &
     let mut d = Vec::new();
     crate::proto::enc_view(data, &mut d);
     format!(
-        "{} {}{} {} {} {}",
+        "{} {}{} {} {} {} #{}:{}",
         op,
         if extra.is_empty() { String::new() } else { format!("{} ", extra) },
         toks.join(" "),
         d.join(" "),
         partial_tokens(partials),
-        obs.tokens()
+        obs.tokens(),
+        xs(&src_tmpl(t)),
+        xs(&serde_json::to_string(data).unwrap_or_default())
     )
 }
